@@ -10,7 +10,9 @@ RULE = (
     "total: every string up to length 5 (quick) / 7 (thorough) over {a,space,tab,',\",\\,-} enumerated in "
     "length-then-lexicographic order, plus Hypothesis unicode text; roundtrip: Hypothesis token lists "
     "(0-4 tokens of 0-5 chars over letters, whitespace incl. \\xa0/\\u2003, both quotes, backslash, '-', '=', "
-    "non-ASCII) that the quoting scheme can express x quote style per token x whitespace-run separators; "
+    "non-ASCII) that the quoting scheme can express x quote style per token x whitespace-run separators; every code "
+    "point (below U+3100 quick, all thorough) after a backslash inside quotes, bare inside quotes, unquoted between "
+    "letters and as separator; "
     "equiv: C01 lines given as quoted string vs argv list to parser and resolver. Non-trivial: the string "
     "contains a quote or a backslash / the token list contains an empty token, whitespace, a quote or a "
     "backslash inside a token / the line has an option token and a '--' tail. Enumerated strings are "
@@ -148,7 +150,7 @@ def check_roundtrip(ctx, case):
 
 
 WS = [" ", "\t", "\n", "\xa0", " ", "\r"]
-TOKEN_CHARS = ["a", "b", "Z", "-", "=", "é", "中", "'", '"', "\\", " ", "\t", "\xa0", " ", "0"]
+TOKEN_CHARS = ["a", "b", "Z", "-", "=", "é", "中", "'", '"', "\\", "\\", " ", "\t", "\n", "\r", "\xa0", "\u2003", "0"]
 
 
 @st.composite
@@ -212,7 +214,46 @@ def check_equiv(ctx, case):
     c01.check_string_vs_argv(ctx, case)
 
 
+def check_codepoint(ctx, cp, by_construction=False):
+    """One code point c in four positions: after a backslash inside quotes, bare inside quotes, unquoted between
+    letters (splits there exactly when c is whitespace), and as the separator between two quoted tokens when it
+    is whitespace."""
+    c = chr(cp)
+    ctx.case("codepoints", cp, c.isspace() or not c.isascii(), distinct_by_construction=by_construction)
+    quotes = "'\""
+    cases = []
+    if c not in quotes:
+        cases.append(("'a\\" + c + "b'", ["a\\" + c + "b"]))
+        cases.append(('"\\' + c + '"', ["\\" + c]))
+    if c not in quotes and c != "\\":
+        cases.append(("'a" + c + "b'", ["a" + c + "b"]))
+        cases.append(("a" + c + "b", ["a", "b"] if c.isspace() else ["a" + c + "b"]))
+    if c.isspace():
+        cases.append(("'x'" + c + '"y"', ["x", "y"]))
+    for line, want in cases:
+        try:
+            raw = run_guarded(_tokenize, (line,))
+        except NonTermination as e:
+            ctx.fail("codepoints", "C08.total", cp, "terminates", str(e), sig="non-termination")
+            return
+        except Exception as e:
+            ctx.fail("codepoints", "C08.total", cp, "token list", line, exc=e)
+            return
+        if list(raw.tokens) != want:
+            ctx.fail("codepoints", "C08.roundtrip" if line[0] in quotes else "C08.split", cp, want,
+                     {"line": line, "tokens": list(raw.tokens)}, sig="codepoint")
+            return
+
+
+def shard_codepoints(ctx, arg):
+    for cp in range(*arg):
+        if 0xD800 <= cp < 0xE000:
+            continue
+        check_codepoint(ctx, cp, True)
+
+
 PARTS = {
+    "codepoints": check_codepoint,
     "total": check_total,
     "total-random": lambda ctx, s: check_total(ctx, s, part="total-random"),
     "roundtrip": check_roundtrip,
@@ -243,6 +284,11 @@ def run(ctx):
     )
     ctx.hyp(text, lambda s: check_total(ctx, s, part="total-random"), 1500 if quick else 40000, salt=1)
     ctx.hyp_sharded("roundtrip", 12000 if quick else 160000, salt=2)
+    top = 0x3100 if quick else 0x110000
+    step = top // 16
+    ctx.parallel("shard_codepoints", [(i * step, (i + 1) * step) for i in range(16)])
+    ctx.exhaustive("codepoints", True, "every code point below U+%X after a backslash, inside quotes, unquoted "
+                   "between letters and as a separator" % top)
     if not quick:
         ctx.fuzz("c08", 400000)
     try:
